@@ -1,4 +1,15 @@
 TEXT = {
+ 'C15': {
+  'text': 'Lean 4 theorems over mcopyStep (one interpreter step on MCOPY with exact uint64 arithmetic): whenever the step succeeds, for EVERY '
+          '(dst, src, len) the new memory size is EIP-5656\'s, every byte is the overlap-safe memmove of the zero-extended old memory, the cost '
+          'is 3 + 3*ceil(len/32) + expansion, and the interpreter invariant is kept; zero length is a no-op with any offsets; operands >= 2^64 '
+          'or wrapping sums fail in the out-of-gas class; the step never panics. TSTORE is refused in static context before touching the store, '
+          'a store is read back at the same (address,key) only, a failing frame leaves transient storage as at entry. The opcode bytes are '
+          'defined exactly in the Cancun table (regenerated, decide +kernel). Tied by real bytecode on a Cancun configuration.',
+  'note': 'Trusted: Lean kernel + standard axioms; hand-written model of the listed functions validated by correspondence; extractor; the '
+          'StateDB contract for transient storage (journaled, emptied by Prepare) - exercised through go-ethereum\'s state.StateDB.',
+  'technique': 'Lean 4 proof of model = EIP specification for all operands (exact uint64 arithmetic) + instruction-level correspondence',
+ },
  'C14': {
   'text': 'Lean 4 theorems: loadParamBytes returns exactly the ABI bytes value (abiBytes, written without machine arithmetic) for EVERY '
           'payload, head and length word (incl. >= 2^63, >= 2^64-32, 2^256-1) and an error otherwise - never a panic; 0x66 calls the host with '
